@@ -361,6 +361,49 @@ class KeepStream:
         return None
 
 
+class FixedRegress:
+    """Regression cases of the diff findings that were fixed in libyang (known_findings.d/difftree.json and diff.json, status
+    fixed, field regression_case: a lyx case and the pattern its answer must NOT match any more).  A match means the defect
+    is back."""
+    driver = "lyx"
+    kinds = None
+    quick_sanitize = False
+
+    def __init__(self, part):
+        self.part = part
+        self.name = "difftree-regress-" + part
+        self.pat = {}
+
+    def gen(self, rng, tier, scale=1.0):
+        import json
+        import os
+        import vlib
+        L = []
+        for fn in ("difftree.json", "diff.json"):
+            for e in json.load(open(os.path.join(vlib.VERIF, "known_findings.d", fn))):
+                rcase = e.get("regression_case")
+                if e.get("status") != "fixed" or e.get("property") != self.part or not rcase or rcase.get("driver") != "lyx":
+                    continue
+                if "corpus_line" in rcase:
+                    f, idx = rcase["corpus_line"]
+                    line = [x.rstrip("\n") for x in open(os.path.join(vlib.VERIF, f)) if x.strip() and not x.startswith("#")][idx]
+                else:
+                    line = rcase["line"]
+                self.pat[line] = (e["tag"], rcase["must_not_match"])
+                L.append(line)
+        return L
+
+    def judge(self, line, out):
+        tag, pat = self.pat.get(line, (None, None))
+        if pat is None:
+            return None
+        if out.startswith("CRASH(") or out == "TIMEOUT":
+            return (None, "regression case of %s: %s" % (tag, out))
+        if re.search(pat, out):
+            return (None, "the fixed finding %s reproduces again" % tag)
+        return None
+
+
 def only_inner_flags(x, y):
     """the two dumps differ only in the flag field of inner nodes (containers / list instances)"""
     xs, ys = x.split(";"), y.split(";")
